@@ -111,6 +111,10 @@ SPECS = {
                         # (they follow an earlier aborted call on the same Lab: with_prior_abort)
                         dict(n=5, ntypes=2, maxpars=(UNL, 1), maxws=(2,), backends=('fork', 'spawn'), cached='none', reqs='subsets',
                              cofs=(False,), max_edges=0, sample=160, must=True),
+                        # four independent tasks on two workers, the limited type last: an earlier aborted call on the same Lab
+                        # leaves a queued future of the limited type behind if anything keeps the executor
+                        dict(n=4, ntypes=2, maxpars=(UNL, 1), maxws=(2,), backends=('fork', 'spawn'), cached='none', reqs='roots',
+                             cofs=(False,), max_edges=0, must=True),
                         # limited types whose tasks occur only as dependencies of the requested ones
                         dict(n=3, ntypes=2, maxpars=(1, 2), maxws=(3,), backends=('fork',), cached='none', reqs='roots',
                              nonempty_deps=True, sample=60, must=True)],
